@@ -33,6 +33,7 @@ EXPLANATION += ' Added: (R7) in functions that use convention tables, a value ca
 TECHNIQUE += "; evaluation of _convert_convention_shell / convert_conventions on the repository's tables, synthetic signed re-orderings and an abstract basis"
 EXPLANATION += ' R2-R4 no longer match statement templates: _convert_convention_shell is interpreted on every pair of repository convention tables that share a key (both directions), on 864 synthetic signed re-orderings of three labels and on 12 ill-formed pairs; convert_conventions on an abstract 5-shell basis; results are compared with the definition in the docstring (independent oracle in the rule).'
 TRUSTED = ["CPython ast parser", "list.index returns the first position of an element", "numpy fancy indexing a[p] places a[p[i]] at position i"]
+EXPLANATION += " (R6) order and signs of every format's convention table equal the frozen specification (spec/conventions.json)."
 
 
 def run(ctx):
@@ -216,3 +217,6 @@ def run(ctx):
             users.append(f)
     check_local_memos(ctx, "R7", users, "functions that use convention tables")
     ctx.floor("R7", len(users), 12, "functions using convention tables")
+    # the factors that multiply converted rows must be in the converted order too (shared with C01-R4): otherwise the
+    # written block is not a signed permutation of the stored one
+    ctx.borrow("c01", {"R4": "R8", "R9": "R9"})
